@@ -144,7 +144,39 @@ def check(prog, res, tier):
                     lo, hi = p.store.canon(Lin.of(r.lo)), p.store.canon(Lin.of(r.hi))
                     out.add((lo.c if lo.is_const() else str(lo), hi.c if hi.is_const() else str(hi)))
         return out
+    def element_of_key(p, key):
+        """message key 'DE' ++ decimal numeral of n -> the Lin n, else None"""
+        key = p.interp.resolve(key)
+        if isinstance(key, SeqV) and len(key.segs) == 2 and isinstance(key.segs[0], Lit) and key.segs[0].data == 'DE' and \
+                isinstance(key.segs[1], Num) and key.segs[1].base == 10 and key.segs[1].val is not None and key.segs[1].minw <= 1:
+            return key.segs[1].val
+        return None
+
+    def looked_up_elements(p, first=None, last=None):
+        """element numbers whose message entry is read (message.get / message[...]) on this path"""
+        out = []
+        for e in p.events:
+            if first is not None and not (first < e.seq < last):
+                continue
+            if not e.under(efi.short):
+                continue
+            key = None
+            if e.kind == 'method' and e.data['name'] == 'get' and isinstance(e.data.get('recv'), DictV) and \
+                    e.data['recv'].desc == 'message' and e.data['args']:
+                key = e.data['args'][0]
+            elif e.kind == 'getitem' and isinstance(e.data.get('obj'), DictV) and e.data['obj'].desc == 'message':
+                key = e.data.get('key')
+            n = element_of_key(p, key) if key is not None else None
+            if n is not None:
+                out.append(n)
+        return out
     re_ = ranges(runs_e, efi.short)
+    if not re_:
+        # the encoder is not driven by a range(): take the elements from the message keys it looks up
+        for p in runs_e.inv:
+            for n in looked_up_elements(p):
+                lo, hi = p.store.bounds(n)
+                re_.add((lo, hi + 1 if hi is not None else None))
     dits = decoder_iterations(du, dfi)
     rd = set()
     for p in du.loads.inv:
@@ -175,6 +207,9 @@ def check(prog, res, tier):
         for first, last, s0, s1, head in iterations(p, func=efi.short):
             li = [e for e in p.events if e.kind == 'loop-iter' and first <= e.seq < last and e.node is head.node]
             bit = li[-1].data.get('elem') if li else None
+            if not isinstance(bit, IntV):
+                ns = looked_up_elements(p, first, last)
+                bit = IntV(ns[0]) if ns and all(p.store.decide_eq0(x - ns[0]) is True for x in ns) else bit
             for e in p.events:
                 if first < e.seq < last and e.kind == 'setitem' and isinstance(e.data['obj'], ListV) and isinstance(e.data['key'], IntV) \
                         and isinstance(bit, IntV):
